@@ -352,7 +352,7 @@ fn main() {
             if built.segs.len() > 1 {
               l.count("score_requests_multi_segment", 1);
             }
-            if !o.below_min.is_empty() {
+            if !o.below_min.is_empty() && o.mismatches.is_empty() {
               l.fail("score:hit-below-min_score", "a returned hit's function_score value is below min_score", json!({"request": req, "hits": o.below_min}));
             }
             if !o.mismatches.is_empty() {
